@@ -4,6 +4,7 @@ confirmed ones under /verif/seeded/<PROP>-<k>/ (patch.diff, demo.rs, meta.json).
 import json, os, shutil, subprocess, sys, glob
 VERIF = os.path.dirname(os.path.dirname(os.path.abspath(__file__)))
 prop, deliver = sys.argv[1], sys.argv[2]
+offset = int(sys.argv[3]) if len(sys.argv) > 3 else 0
 WT = '/tmp/wt-verify-' + prop
 FEAT = 'alloc serde zeroize const-default internals'
 env = dict(os.environ, CARGO_NET_OFFLINE='true')
@@ -22,7 +23,7 @@ try:
         k = ''.join(c for c in os.path.basename(patch) if c.isdigit()) or '1'
         demos = glob.glob(os.path.join(deliver, 'demo_*_%s.rs' % k))
         meta_in = os.path.join(deliver, 'meta%s.json' % k)
-        rec = {'property': prop, 'source': 'independent sub-agent given only the property text and a scratch worktree', 'checks_run': []}
+        rec = {'property': prop, 'source': 'independent sub-agent given only the property text and a scratch worktree' + (' (second round: asked for subtler changes than the obvious slips)' if offset else ''), 'checks_run': []}
         if os.path.exists(meta_in):
             try:
                 rec['agent_meta'] = json.load(open(meta_in))
@@ -64,7 +65,7 @@ try:
         rec['checks_run'].append({'step': 'demo without patch (must pass)', 'ok': passes_without, 'tail': out2[-300:]})
         if not (fails_with and passes_without):
             print(prop, k, 'REJECT: demo does not discriminate (fails_with=%s passes_without=%s)' % (fails_with, passes_without)); continue
-        d = os.path.join(VERIF, 'seeded', '%s-%s' % (prop, k))
+        d = os.path.join(VERIF, 'seeded', '%s-%d' % (prop, int(k) + offset))
         os.makedirs(d, exist_ok=True)
         shutil.copy(patch, os.path.join(d, 'patch.diff'))
         shutil.copy(demo, os.path.join(d, demo_name))
